@@ -783,6 +783,138 @@ def specialise_record_params(trees: Dict[str, ast.Module], known_classes: Set[st
     return done
 
 
+def flatten_temporary_objects(trees: Dict[str, ast.Module], known_classes: Set[str]) -> List[str]:
+    """`R(a, b).method(x)` - an instance of a new class created only to call one method on it - is read as a call of a module-level function
+    `_R__method(a, b, x)` whose body is the method's, `self.<attr>` standing for the constructor argument it was assigned from
+    (`__init__` must do nothing but `self.attr = parameter`).  The ordinary expansion of new helpers then reads the body in place."""
+    done: List[str] = []
+    for mod, t in trees.items():
+        for c in [x for x in t.body if isinstance(x, ast.ClassDef) and x.name not in known_classes and not x.bases and not x.decorator_list]:
+            init = next((m for m in c.body if isinstance(m, ast.FunctionDef) and m.name == "__init__"), None)
+            if init is None or init.args.vararg or init.args.kwarg or init.args.kwonlyargs or init.args.defaults:
+                continue
+            iparams = [x.arg for x in init.args.args[1:]]
+            attr_of: Dict[str, str] = {}
+            ok = True
+            for st in _body_wo_doc(init):
+                if isinstance(st, ast.Assign) and len(st.targets) == 1 and isinstance(st.targets[0], ast.Attribute) \
+                        and isinstance(st.targets[0].value, ast.Name) and st.targets[0].value.id == init.args.args[0].arg \
+                        and isinstance(st.value, ast.Name) and st.value.id in iparams:
+                    attr_of[st.targets[0].attr] = st.value.id
+                else:
+                    ok = False
+            if not ok or not attr_of:
+                continue
+            meths = {m.name: m for m in c.body if isinstance(m, FuncDef) and m.name != "__init__" and not m.decorator_list
+                     and not m.args.vararg and not m.args.kwarg}
+            made: Dict[str, str] = {}
+            for t2 in trees.values():
+                for call in [n for n in ast.walk(t2) if isinstance(n, ast.Call)]:
+                    f = call.func
+                    if not (isinstance(f, ast.Attribute) and f.attr in meths and isinstance(f.value, ast.Call) and isinstance(f.value.func, ast.Name)
+                            and f.value.func.id == c.name):
+                        continue
+                    ctor = f.value
+                    if ctor.keywords or len(ctor.args) != len(iparams) or any(isinstance(x, ast.Starred) for x in ctor.args + call.args):
+                        continue
+                    m = meths[f.attr]
+                    selfname = m.args.args[0].arg
+                    if any(isinstance(x, ast.Name) and x.id == selfname and not isinstance(_parent_attr(m, x), ast.Attribute) for x in ast.walk(m)):
+                        continue  # self escapes
+                    fname = f"_{c.name}__{m.name}"
+                    if fname not in made:
+                        nf = copy.deepcopy(m)
+                        nf.name = fname
+                        clash = {x.arg for x in nf.args.args[1:] + nf.args.kwonlyargs} & set(iparams)
+                        if clash:
+                            continue
+                        nf.args.args = [ast.arg(arg=p_, annotation=None) for p_ in iparams] + nf.args.args[1:]
+
+                        class _SA(ast.NodeTransformer):
+                            def visit_Attribute(self, node: ast.Attribute):
+                                self.generic_visit(node)
+                                if isinstance(node.value, ast.Name) and node.value.id == selfname and node.attr in attr_of:
+                                    return ast.copy_location(ast.Name(id=attr_of[node.attr], ctx=node.ctx), node)
+                                return node
+                        nf = _SA().visit(nf)
+                        if any(isinstance(x, ast.Name) and x.id == selfname for x in ast.walk(nf)):
+                            continue
+                        t.body.insert(t.body.index(c) + 1, nf)
+                        made[fname] = m.name
+                    call.func = ast.copy_location(ast.Name(id=fname, ctx=ast.Load()), f)
+                    call.args = list(ctor.args) + list(call.args)
+            if made:
+                for t2 in trees.values():
+                    ast.fix_missing_locations(t2)
+                done += [f"{c.name}(..).{v}" for v in made.values()]
+    return done
+
+
+def _parent_attr(root: ast.AST, node: ast.AST) -> Optional[ast.AST]:
+    for n in ast.walk(root):
+        for ch in ast.iter_child_nodes(n):
+            if ch is node:
+                return n
+    return None
+
+
+def flatten_decorator_compositions(trees: Dict[str, ast.Module]) -> List[str]:
+    """`name = outer(inner(f))` at module level, every decorator being a module-level function of the shape
+    `def deco(fn): def wrapper(..): ..fn(..).. ; return wrapper`, is read as the functions it builds: `_inner__f(..)` (inner's wrapper with
+    `fn` := f) and `name(..)` (outer's wrapper with `fn` := `_inner__f`).  The wrappers are then ordinary functions (new helpers are read in place)."""
+    done: List[str] = []
+    for mod, t in trees.items():
+        decos: Dict[str, Tuple[ast.FunctionDef, ast.AST]] = {}
+        funcs = {st.name for st in t.body if isinstance(st, FuncDef)}
+        for st in t.body:
+            if isinstance(st, ast.FunctionDef) and len(st.args.args) == 1 and not st.args.vararg and not st.args.kwarg and not st.decorator_list:
+                body = _body_wo_doc(st)
+                if len(body) == 2 and isinstance(body[0], FuncDef) and isinstance(body[1], ast.Return) and isinstance(body[1].value, ast.Name) \
+                        and body[1].value.id == body[0].name:
+                    decos[st.name] = (st, body[0])
+        if not decos:
+            continue
+        new_body: List[ast.stmt] = []
+        changed = False
+        for st in t.body:
+            chain: List[str] = []
+            if isinstance(st, ast.Assign) and len(st.targets) == 1 and isinstance(st.targets[0], ast.Name):
+                v = st.value
+                while isinstance(v, ast.Call) and isinstance(v.func, ast.Name) and v.func.id in decos and len(v.args) == 1 and not v.keywords:
+                    chain.append(v.func.id)
+                    v = v.args[0]
+                if chain and isinstance(v, ast.Name) and v.id in funcs:
+                    target = v.id
+                    for k, dname in enumerate(reversed(chain)):
+                        deco, wrapper = decos[dname]
+                        last = k == len(chain) - 1
+                        nf = copy.deepcopy(wrapper)
+                        nf.name = st.targets[0].id if last else f"_{dname.strip('_')}__{target}"
+                        nf.decorator_list = []
+                        prm = deco.args.args[0].arg
+
+                        class _R(ast.NodeTransformer):
+                            def visit_Name(self, n):
+                                return ast.copy_location(ast.Name(id=target, ctx=n.ctx), n) if n.id == prm else n
+                        nf = _R().visit(nf)
+                        ast.copy_location(nf, st)
+                        new_body.append(nf)
+                        target = nf.name
+                    changed = True
+                    done.append(f"{st.targets[0].id} = {'('.join(chain)}(...)")
+                    continue
+            new_body.append(st)
+        if changed:
+            t.body = new_body
+            # a decorator that nothing refers to any more is dead code: it goes (its wrapper would look like an uncalled entry point)
+            used = {n.id for t2 in trees.values() for n in ast.walk(t2) if isinstance(n, ast.Name) and isinstance(n.ctx, ast.Load)} | \
+                {n.attr for t2 in trees.values() for n in ast.walk(t2) if isinstance(n, ast.Attribute)} | \
+                {a_.name for t2 in trees.values() for n in ast.walk(t2) if isinstance(n, (ast.Import, ast.ImportFrom)) for a_ in n.names}
+            t.body = [st for st in t.body if not (isinstance(st, ast.FunctionDef) and st.name in decos and st.name not in used)]
+            ast.fix_missing_locations(t)
+    return done
+
+
 def inline_new_helpers(trees: Dict[str, ast.Module], known: Set[str]) -> List[str]:
     expanded: List[str] = []
     for _round in range(4):
@@ -804,9 +936,15 @@ def inline_new_helpers(trees: Dict[str, ast.Module], known: Set[str]) -> List[st
         for mod, t in trees.items():
             collect(t.body, mod, None, None)
         uniq = {k: v[0] for k, v in helpers.items() if len(v) == 1}
-        if not uniq:
+        if not uniq and not any(len(v) == 2 for v in helpers.values()):
             break
         changed = False
+
+        # twins: a new method written once per flavour (a plain one in the sync class, a coroutine in the async class) under one name -
+        # an awaited call is a call of the coroutine, a call that is not awaited is a call of the plain one
+        twins = {k: v for k, v in helpers.items() if len(v) == 2 and all(h_.cls is not None for h_ in v)
+                 and sorted(isinstance(h_.fn, ast.AsyncFunctionDef) for h_ in v) == [False, True]}
+        awaited_calls = {id(n.value) for t_ in trees.values() for n in ast.walk(t_) if isinstance(n, ast.Await)}
 
         def target_of(call: ast.Call) -> Tuple[Optional[Helper], Optional[ast.AST]]:
             f = call.func
@@ -814,6 +952,9 @@ def inline_new_helpers(trees: Dict[str, ast.Module], known: Set[str]) -> List[st
                 return uniq[f.id], None
             if isinstance(f, ast.Attribute) and f.attr in uniq and uniq[f.attr].cls is not None and _plain(f.value):
                 return uniq[f.attr], f.value
+            if isinstance(f, ast.Attribute) and f.attr in twins and _plain(f.value):
+                want_async = id(call) in awaited_calls
+                return next(h_ for h_ in twins[f.attr] if isinstance(h_.fn, ast.AsyncFunctionDef) == want_async), f.value
             return None, None
 
         def strip(v):
@@ -1079,6 +1220,24 @@ def _fold_generated_aliases(fn) -> None:
     folded: the generated local takes the caller's name, so that what the helper built is known under the name the caller uses."""
     def run(stmts: List[ast.stmt]) -> bool:
         for i, st in enumerate(stmts):
+            # `<attribute> = __helper__x` right after the one statement that binds __helper__x (its only other occurrence): the attribute
+            # takes the place of the generated local in that binding
+            if isinstance(st, ast.Assign) and len(st.targets) == 1 and isinstance(st.targets[0], ast.Attribute) and isinstance(st.value, ast.Name) \
+                    and st.value.id.startswith("__") and "__" in st.value.id[2:] and not st.value.id.endswith("__") and i > 0:
+                S = st.value.id
+                occ = [n for n in ast.walk(fn) if isinstance(n, ast.Name) and n.id == S]
+                prev = stmts[i - 1]
+                stores = [n for n in ast.walk(prev) if isinstance(n, ast.Name) and n.id == S and isinstance(n.ctx, ast.Store)] \
+                    if isinstance(prev, ast.Assign) else []
+                if len(occ) == 2 and len(stores) == 1:
+                    tgt_attr = copy.deepcopy(st.targets[0])
+
+                    class _T(ast.NodeTransformer):
+                        def visit_Name(self, n):
+                            return ast.copy_location(tgt_attr, n) if n is stores[0] else n
+                    prev.targets = [_T().visit(t_) for t_ in prev.targets]
+                    del stmts[i]
+                    return True
             if isinstance(st, ast.Assign) and len(st.targets) == 1 and isinstance(st.targets[0], ast.Name) and isinstance(st.value, ast.Name) \
                     and st.value.id.startswith("__") and "__" in st.value.id[2:] and not st.value.id.endswith("__"):
                 T, S = st.targets[0].id, st.value.id
